@@ -16,6 +16,7 @@ def run(ctx):
     accept.rule_every_component_contributes(ctx, 'extension')
     accept.rule_stage_layering(ctx, 'extension')
     grounded.rule_grounded_propagation(ctx)
+    accept.rule_in_all_flags_polarity(ctx)
     cli.rule_encoder_selection(ctx)  # the CLI hands each solver the encoder of its base semantics, for every --encoding value
     ctx.assume("rustc's MIR / borrow checker (returned &Argument cannot point into a local component framework: witness W3, thorough tier)")
     return (
